@@ -140,9 +140,11 @@ var LenientCodes = map[string]bool{}
 // stored columns with the reference striping.
 func CheckFile(t *sut.Target, file []byte, recs []refpq.Val, batches []int, page int, codec sut.Codec, flags Flags) []Failure {
 	var fails []Failure
+	// the per-page record cap is checked against the page size the harness
+	// configured; with the library's default (whatever it is) nothing is assumed
 	maxRec := page
 	if maxRec <= 0 {
-		maxRec = 1000
+		maxRec = 0
 	}
 	f, err := refpq.ParseFile(file, refpq.ParseOptions{MaxPageRecords: maxRec})
 	if err != nil {
